@@ -28,16 +28,27 @@ def closed_models(run):
     if r.coverage_zero:
         raise vlib.InfraError("vacuous closed model DisruptionCond, actions never taken: %s" % r.coverage_zero)
     rejected = []
-    for cfg in sorted(glob.glob(os.path.join(run.specdir, "Disruption_Weak_*.cfg"))):
-        w = run.tlc("Disruption", os.path.basename(cfg), workers=2, heap="2g", expect_violation=True)
-        if w.violated != "Inv_C07_NeverProtected":
-            raise vlib.InfraError("spec mutation %s not rejected by TLC (conjunct not load-bearing)" % os.path.basename(cfg))
-        rejected.append(os.path.basename(cfg)[len("Disruption_Weak_"):-4])
-    for cfg in sorted(glob.glob(os.path.join(run.specdir, "DisruptionCond_Weak_*.cfg"))):
-        w = run.tlc("DisruptionCond", os.path.basename(cfg), workers=2, heap="2g", expect_violation=True)
-        if w.violated != "Inv_C07_ConsolidatableJustified":
-            raise vlib.InfraError("spec mutation %s not rejected by TLC" % os.path.basename(cfg))
-        rejected.append("cond:" + os.path.basename(cfg)[len("DisruptionCond_Weak_"):-4])
+    if run.tier == "quick":
+        # one TLC run per model tries every weakening (Weak = "*"); the individual Disruption_Weak_*.cfg are run in thorough
+        import re
+        for mod, cfg, prefix in (("Disruption", "Disruption_WeakAll.cfg", ""), ("DisruptionCond", "DisruptionCond_WeakAll.cfg", "cond:")):
+            w = run.tlc(mod, cfg, workers=4, heap="3g")
+            seen = set(re.findall(r'<<"REJ", "(\w+)">>', w.stdout))
+            want = {os.path.basename(c)[len(mod + "_Weak_"):-4] for c in glob.glob(os.path.join(run.specdir, mod + "_Weak_*.cfg"))}
+            if not want or want - seen:
+                raise vlib.InfraError("spec mutations not rejected by TLC (conjunct not load-bearing): %s" % sorted(want - seen))
+            rejected += [prefix + x for x in sorted(want)]
+    else:
+        for cfg in sorted(glob.glob(os.path.join(run.specdir, "Disruption_Weak_*.cfg"))):
+            w = run.tlc("Disruption", os.path.basename(cfg), workers=2, heap="2g", expect_violation=True)
+            if w.violated != "Inv_C07_NeverProtected":
+                raise vlib.InfraError("spec mutation %s not rejected by TLC (conjunct not load-bearing)" % os.path.basename(cfg))
+            rejected.append(os.path.basename(cfg)[len("Disruption_Weak_"):-4])
+        for cfg in sorted(glob.glob(os.path.join(run.specdir, "DisruptionCond_Weak_*.cfg"))):
+            w = run.tlc("DisruptionCond", os.path.basename(cfg), workers=2, heap="2g", expect_violation=True)
+            if w.violated != "Inv_C07_ConsolidatableJustified":
+                raise vlib.InfraError("spec mutation %s not rejected by TLC" % os.path.basename(cfg))
+            rejected.append("cond:" + os.path.basename(cfg)[len("DisruptionCond_Weak_"):-4])
     run.notes.append("spec mutations rejected by TLC: " + ", ".join(rejected))
     run.extra_cov["spec_mutations_rejected"] = rejected
 
@@ -150,7 +161,7 @@ def check(run):
     conds = gen_cond(run)
     scen += [dc.cond_scenario(b, i) for i, b in enumerate(conds)]
     scen += explorer(run, NEXPLORE[run.tier])
-    files = dc.record(run, scen, shards=vlib.NCPU if run.tier == "thorough" else 8)
+    files = dc.record(run, scen, procs=4 if run.tier == "quick" else 8, shards=2)
     summ = dc.summarise(files)
     if len(summ) != len(scen):
         raise vlib.InfraError("trace count mismatch")
@@ -210,15 +221,9 @@ def replay(run, path):
     """Re-execute the scenario of the failing trace (embedded in its Cfg line) on the current tree and re-validate."""
     body = json.load(open(path))
     sc = json.loads(body["trace"][0]["scenarioJson"])
-    files = dc.record(run, [sc], prefix="replay", shards=1)
+    files = dc.record(run, [sc], prefix="replay", shards=1, procs=1)
     s = dc.summarise(files)[0]
     run.note_case(sc["name"], bool(s["cmds"] or s["qcmds"] or s["ctrue_writes"]))
     run.note_case("replay", True)
-    if drift:
-        # the code protects a node the statement (and the model) would let go: over-protective, never a violation
-        msg = "MODEL-DRIFT: code stricter than the model in %d leniency-control cells (not a violation): %s" % (len(drift), drift[:8])
-        run.notes.append(msg)
-        print(msg)
-    run.extra_cov["model_drift_cells"] = drift
     run.validate("Disruption_Trace", "Disruption_Trace.cfg", files, heap="2g", par=1)
     run.samples = [{"scenario": sc["name"], "commands": s["cmds"], "round": s["qcmds"]}]
